@@ -81,7 +81,7 @@ def cases(tier, seed):
     for gen in (4, 5):
         for ops in directed():
             yield {"gen": gen, "ops": ops}
-    n = 300 if tier == "quick" else 30000
+    n = 300 if tier == "quick" else 150000
     for i in range(n):
         yield {"gen": rnd.choice((4, 5)), "ops": gen_script(rnd)}
 
